@@ -10,6 +10,7 @@ type GenOptions struct {
 	TooLong    bool // allow tooLong answers (C03 only; C02 excludes them)
 	Wait       bool // allow waiting out the real gap timer
 	MaxEntries int
+	Affected   bool // allow messages.affected* results (marker entries, HandleAffected actions)
 }
 
 // Gen builds a random scenario: a server log mixing new messages, pts-bearing non-message
@@ -31,11 +32,17 @@ func Gen(r *hc.RNG, o GenOptions) (Scenario, map[int]bool) {
 	n := r.Range(1, max(1, o.MaxEntries))
 	for id := 1; id <= n; id++ {
 		k := hc.Pick(r, KMsg, KMsg, KMsg, KOther, KOther, KQts, KQOther, KPlain)
+		if o.Affected && r.Chance(18) {
+			k = KAff
+		}
 		if len(chans) > 0 && r.Chance(40) {
 			k = hc.Pick(r, KChMsg, KChMsg, KChOther)
+			if o.Affected && r.Chance(25) {
+				k = KChAff
+			}
 		}
 		e := Entry{ID: id, Kind: k, Count: 1}
-		if k == KOther || k == KChOther {
+		if k == KOther || k == KChOther || k == KAff || k == KChAff {
 			e.Count = hc.Pick(r, 1, 1, 1, 2, 3)
 		}
 		switch e.Seq() {
@@ -117,6 +124,44 @@ func Gen(r *hc.RNG, o GenOptions) (Scenario, map[int]bool) {
 		if o.Wait && r.Chance(3) {
 			s.Actions = append(s.Actions, Action{Op: "W"})
 		}
+	}
+	// marker entries never travel in containers: split them out of every push into HandleAffected
+	// actions (before or after the rest of the container), and sprinkle count-0 results
+	if o.Affected {
+		var as []Action
+		for _, a := range s.Actions {
+			if a.Op != "p" {
+				as = append(as, a)
+				continue
+			}
+			var ids []int
+			var marks []Action
+			for _, id := range a.IDs {
+				if s.Log[id-1].IsMarker() {
+					marks = append(marks, Action{Op: "a", IDs: []int{id}})
+				} else {
+					ids = append(ids, id)
+				}
+			}
+			first := r.Bool()
+			if first {
+				as = append(as, marks...)
+			}
+			if len(ids) > 0 {
+				as = append(as, Action{Op: "p", IDs: ids})
+			}
+			if !first {
+				as = append(as, marks...)
+			}
+			if r.Chance(6) {
+				c := int64(0)
+				if len(chans) > 0 && r.Bool() {
+					c = hc.Pick(r, chans...)
+				}
+				as = append(as, Action{Op: "z", C: c})
+			}
+		}
+		s.Actions = as
 	}
 	for _, a := range s.Actions {
 		if a.Op == "p" {
